@@ -877,6 +877,81 @@ func ruleTile(c *Ctx) {
 		}
 		c.tileEpilogue(p, fi, cursor)
 	}
+	c.literalAppendsClipped()
+}
+
+// literalAppendsClipped: every literal run appended to blk.Literals by a Parse method ends at or before the block
+// end W₀ + n₀ (W₀ the position at entry, n₀ the clamped block length of R-CLAMP-N): literals taken from behind the
+// block end make the block longer than the n that is reported.
+func (c *Ctx) literalAppendsClipped() {
+	for _, p := range c.parsers() {
+		fn := p.Parse
+		if fn == nil {
+			continue
+		}
+		fi := c.info(fn)
+		n0, _ := c.blockLenValue(fi)
+		var w0 string
+		for _, a := range fi.atomsWithSuffix(".W") {
+			if !strings.Contains(a, "@") {
+				w0 = a
+			}
+		}
+		if n0 == nil || w0 == "" {
+			continue // reported by R-CLAMP-N / R-ADVANCE
+		}
+		end := linAtom(w0).add(fi.lin(n0))
+		bp := blockParam(fn)
+		idx := 0
+		for _, b := range fn.Blocks {
+			for _, in := range b.Instrs {
+				st, ok := in.(*ssa.Store)
+				if !ok {
+					continue
+				}
+				fa, ok := st.Addr.(*ssa.FieldAddr)
+				if !ok || fa.X != ssa.Value(bp) || fieldOfAddr(st.Addr) == nil || fieldOfAddr(st.Addr).Name() != "Literals" {
+					continue
+				}
+				app := isBuiltinCall(valueInstr(st.Val), "append")
+				if app == nil || len(app.Call.Args) != 2 {
+					continue
+				}
+				src, ok := app.Call.Args[1].(*ssa.Slice)
+				if !ok {
+					continue
+				}
+				idx++
+				key := fmt.Sprintf("%s:literal-append#%d", fnName(fn), idx)
+				dp := false
+				for _, e := range c.emitsIn(fn) {
+					if e.Block == b && isFieldFlow(e.MatchLen) {
+						dp = true
+					}
+				}
+				if dp {
+					// lengths read from a DP table: bounded by R-BLOCKCLIP's dp-store obligations
+					continue
+				}
+				var up Lin
+				if src.High != nil {
+					up = fi.lin(src.High)
+					if ld, ok := src.High.(*ssa.UnOp); ok && ld.Op == token.MUL {
+						if rs := fi.uniqueReachingStore(ld); rs != nil {
+							up = fi.lin(rs.Val)
+						}
+					}
+				} else {
+					up = fi.lenOf(src.X)
+				}
+				if fi.proveAt(up.sub(end), b, nil) {
+					c.ok(key, st.Pos(), "the appended literals end at %s ≤ W₀ + n₀ = %s", up, end)
+				} else {
+					c.fail(key, st.Pos(), "the literals appended here end at %s, which is not bounded by the block end W₀ + n₀ = %s: bytes behind the block would be emitted and Block.Len() would exceed the n returned", up, end)
+				}
+			}
+		}
+	}
 }
 
 // tileEpilogue checks the final position: the store to W takes φ(cursor |
